@@ -135,7 +135,7 @@ def drive(ctx):
     # in_words
     durs = [dict(y=1), dict(mo=2), dict(w=3), dict(d=4), dict(h=5), dict(mi=6), dict(s=7), dict(y=1, mo=1, w=1, d=1, h=1, mi=1, s=1),
             dict(y=2, mo=3, w=2, d=5, h=22, mi=59, s=59), dict(d=-3, h=-2), dict(w=-1), dict(s=0), dict(us=123456), dict(h=21, s=2),
-            dict(y=5, d=1), dict(mo=11, mi=11)]
+            dict(y=5, d=1), dict(mo=11, mi=11), dict(us=-250000), dict(s=1, us=-1400000)]
     for loc in ctx.mine(locs):
         for dd in (pick(rnd, durs, 5) if q else durs):
             a = {k: 0 for k in ("y", "mo", "w", "d", "h", "mi", "s", "ms", "us")}
